@@ -51,36 +51,41 @@ class FieldDict(dict):
     """instance dictionary of a heap object that records which attribute names are used: a name that a harness uses but that occurs nowhere in the
     repository's source any more means the harness's picture of the object's representation is out of date (pyvc.unit.known_attribute_names)"""
 
+    owner = None  # (module path, class name) of the repository class the object is an instance of
+
     def __init__(self, *a, **k):
         dict.__init__(self, *a, **k)
-        TOUCHED_FIELDS.update(self.keys())
+
+    def _rec(self, k):
+        TOUCHED_FIELDS.add((self.owner, k))
 
     def __setitem__(self, k, v):
-        TOUCHED_FIELDS.add(k)
+        self._rec(k)
         dict.__setitem__(self, k, v)
 
     def __getitem__(self, k):
-        TOUCHED_FIELDS.add(k)
+        self._rec(k)
         return dict.__getitem__(self, k)
 
     def __contains__(self, k):
-        TOUCHED_FIELDS.add(k)
+        self._rec(k)
         return dict.__contains__(self, k)
 
     def get(self, k, d=None):
-        TOUCHED_FIELDS.add(k)
+        self._rec(k)
         return dict.get(self, k, d)
 
     def update(self, *a, **k):
         dict.update(self, *a, **k)
-        TOUCHED_FIELDS.update(self.keys())
+        for key in self.keys():
+            self._rec(key)
 
     def setdefault(self, k, d=None):
-        TOUCHED_FIELDS.add(k)
+        self._rec(k)
         return dict.setdefault(self, k, d)
 
     def pop(self, k, *d):
-        TOUCHED_FIELDS.add(k)
+        self._rec(k)
         return dict.pop(self, k, *d)
 
 
@@ -92,6 +97,10 @@ class Obj:
     def __init__(self, cls, fields=None, tag=None):
         self.cls = cls  # RepoClass or str
         self.f = FieldDict(fields or {})
+        if isinstance(cls, RepoClass):
+            self.f.owner = (cls.module.rel, cls.name)
+        for k_ in self.f:
+            self.f._rec(k_)
         self.tag = tag
 
     @property
